@@ -164,6 +164,10 @@ pub fn edits(files: &[LFile]) -> Vec<Edit> {
                     if !(f.markdown && is_blank(&l.text)) {
                         v.push(Edit::Del { file: fi, idx });
                         v.push(Edit::Rep { file: fi, idx, variant: 0 });
+                        if !f.markdown && !l.text.is_empty() {
+                            // Replaced by an empty line.
+                            v.push(Edit::Rep { file: fi, idx, variant: 2 });
+                        }
                     }
                 }
                 Label::Start(_, true) => {
@@ -325,6 +329,7 @@ pub fn apply(files: &[LFile], edit: &Edit, counter: usize) -> Vec<LFile> {
             let fresh = f.fresh;
             let l = &mut f.lines[*idx];
             match (&l.label, variant) {
+                (Label::Content | Label::Outside, 2) => l.text = String::new(),
                 (Label::Content | Label::Outside, _) => l.text = fresh.replace("{}", &format!("rep{counter}")),
                 (Label::Start(_, true), 1) => {
                     // Attribute edit inside the tag: set x="<counter>".
